@@ -1504,8 +1504,14 @@ package gojq
 
 // C08: TypeOf accepts only the JSON representation types (documented; it panics on anything else)
 //@ func TypeOf(v any) (s string)
-//@   property C08
+//@   property C08 C03
 //@   requires djson(v)
+//@   ensures v == nil ==> s == "null"
+//@   ensures (v is bool) ==> s == "boolean"
+//@   ensures isNum(v) ==> s == "number"
+//@   ensures (v is string) ==> s == "string"
+//@   ensures (v is []any) ==> s == "array"
+//@   ensures (v is map[string]any) ==> s == "object"
 
 // C03: ltrimstr / rtrimstr / startswith / endswith on strings; any other operand kind is a (catchable)
 // type error, never a wrong value.
@@ -1579,3 +1585,34 @@ package gojq
 //@   ensures isNum(x) && v == nil ==> r == nil
 //@   ensures isNum(x) && (v is []any) && 0 <= clampIdx(toIntP(x), -1, len(v.([]any))) && clampIdx(toIntP(x), -1, len(v.([]any))) < len(v.([]any)) ==> r == v.([]any)[clampIdx(toIntP(x), -1, len(v.([]any)))]
 //@   ensures isNum(x) && (v is []any) && !(0 <= clampIdx(toIntP(x), -1, len(v.([]any))) && clampIdx(toIntP(x), -1, len(v.([]any))) < len(v.([]any))) ==> r == nil
+
+// C03/C14: trimstr removes the prefix, then the suffix of what is left; utf8bytelength is the number of
+// bytes (not code points) of a string; toboolean maps exactly "true"/"false" and booleans.
+//@ func funcTrimstr(v, x any) (r any)
+//@   property C03
+//@   ensures (v is string) && (x is string) && !hasPre(v.(string), x.(string)) && !hasSuf(v.(string), x.(string)) ==> (r is string) && r.(string) == v.(string)
+//@   ensures (v is string) && (x is string) && hasPre(v.(string), x.(string)) && !hasSuf(v.(string)[len(x.(string)):], x.(string)) ==> (r is string) && r.(string) == v.(string)[len(x.(string)):]
+//@   ensures (v is string) && (x is string) && !hasPre(v.(string), x.(string)) && hasSuf(v.(string), x.(string)) ==> (r is string) && r.(string) == v.(string)[:len(v.(string))-len(x.(string))]
+//@   ensures !((v is string) && (x is string)) ==> (r is *func1TypeError)
+//@ func funcUtf8ByteLength(v any) (r any)
+//@   property C03 C14
+//@   ensures (v is string) ==> (r is int) && r.(int) == len(v.(string))
+//@   ensures !(v is string) ==> (r is *func0TypeError)
+//@ func funcToBoolean(v any) (r any)
+//@   property C03
+//@   ensures (v is bool) ==> r == v
+//@   ensures (v is string) && v.(string) == "true" ==> (r is bool) && r.(bool)
+//@   ensures (v is string) && v.(string) == "false" ==> (r is bool) && !r.(bool)
+//@   ensures (v is string) && v.(string) != "true" && v.(string) != "false" ==> (r is *func0WrapError)
+//@   ensures !(v is string) && !(v is bool) ==> (r is *func0TypeError)
+
+// C03: type is TypeOf of the input.
+//@ func funcType(v any) (r any)
+//@   property C03
+//@   requires djson(v)
+//@   ensures v == nil ==> (r is string) && r.(string) == "null"
+//@   ensures (v is bool) ==> (r is string) && r.(string) == "boolean"
+//@   ensures isNum(v) ==> (r is string) && r.(string) == "number"
+//@   ensures (v is string) ==> (r is string) && r.(string) == "string"
+//@   ensures (v is []any) ==> (r is string) && r.(string) == "array"
+//@   ensures (v is map[string]any) ==> (r is string) && r.(string) == "object"
